@@ -263,9 +263,19 @@ where
 
         // Handle backrefs that come after by finding the first address after
         // our write, truncating it to the appropriate size, and rewriting it
-        let address_after_write = address + (value.bits() / 8) as u64;
+        //
+        // The end of the write is computed without overflow: a write may end
+        // exactly at the top of the address space (there is then no cell after
+        // it), but it may not reach beyond it.
+        let end_of_write = address as u128 + (value.bits() / 8) as u128;
+        if end_of_write > 1u128 << 64 {
+            return Err("Storing value in paged memory beyond the end of the address space".into());
+        }
+        let address_after_write = end_of_write as u64;
 
-        let value_to_write = if let Some(MemoryCell::Backref(backref_address)) =
+        let value_to_write = if end_of_write == 1u128 << 64 {
+            None
+        } else if let Some(MemoryCell::Backref(backref_address)) =
             self.load_cell(address_after_write)
         {
             let backref_value = self
@@ -274,9 +284,10 @@ where
                 .value()
                 .ok_or("Backref cell pointed to cell without value")?;
             // furthest most address backref value reaches
-            let backref_furthest_address = backref_address + (backref_value.bits() / 8) as u64;
+            let backref_furthest_address =
+                *backref_address as u128 + (backref_value.bits() / 8) as u128;
             // how many bits are left after our write
-            let left_bits = ((backref_furthest_address - address_after_write) * 8) as usize;
+            let left_bits = ((backref_furthest_address - end_of_write) * 8) as usize;
             // load that value
             self.load(address_after_write, left_bits)?
         } else {
@@ -292,9 +303,10 @@ where
             if let Some(MemoryCell::Backref(backref_address)) = self.load_cell(address) {
                 let backref_value = self.load_cell(*backref_address).unwrap().value().unwrap();
                 // furthest most address backref value reaches
-                let backref_furthest_address = backref_address + (backref_value.bits() / 8) as u64;
+                let backref_furthest_address =
+                    *backref_address as u128 + (backref_value.bits() / 8) as u128;
                 // how many bits are we about to overwrite
-                let overwrite_bits = (backref_furthest_address - address) * 8;
+                let overwrite_bits = (backref_furthest_address - address as u128) * 8;
                 // how many bits are left over
                 let left_bits = backref_value.bits() - overwrite_bits as usize;
                 Some((*backref_address, self.load(*backref_address, left_bits)?))
